@@ -328,6 +328,51 @@ func runC10(c *Ctx) {
 	}
 
 	// ---- R5 parser recursion
+	c.rule("C10-R8", "MPT: the decompiler's listing covers the whole code section: the loop of Decompiler.Decompile that reads instructions (calls readInstruction) is left, once an instruction has been read in an iteration, only towards an error return - every other exit is the loop's own bounds test before the next read. A `break` on an opcode (HALT is also what ends an embedded async body) lists only part of what the VM executes, without an error")
+	if dc := c.mustFn("C10-R8", decompPkg, "Decompiler.Decompile"); dc != nil {
+		nLoops := 0
+		for _, lp := range naturalLoops(dc) {
+			var rd ssa.Instruction
+			for b := range lp.body {
+				for _, ins := range b.Instrs {
+					if call, ok := ins.(*ssa.Call); ok && strings.HasSuffix(callName(call), "Decompiler.readInstruction") {
+						rd = ins
+					}
+				}
+			}
+			if rd == nil {
+				continue
+			}
+			nLoops++
+			k := 0
+			for b := range lp.body {
+				if !(rd.Block() == b || rd.Block().Dominates(b)) {
+					continue
+				}
+				for _, succ := range b.Succs {
+					if lp.body[succ] {
+						continue
+					}
+					k++
+					q := &pathQuery{fn: dc, target: func(x ssa.Instruction) bool {
+						r, ok := x.(*ssa.Return)
+						return ok && len(r.Results) > 0 && isNilConst(stripConv(retVals(r)[len(r.Results)-1]))
+					}}
+					hit, path := q.from(succ, 0)
+					p := b.Instrs[len(b.Instrs)-1].Pos()
+					if p == token.NoPos {
+						p = rd.Pos()
+					}
+					c.ob("C10-R8", fnKey(dc)+"#walk-leaves-the-loop-after-a-read-only-with-an-error-"+itoa(k), p, hit == nil, "after an instruction was read the walk can leave the loop and still return a listing: the part of the code section behind that point is missing from the output without any error (nested async bodies end in HALT like the program does)", c.blockPath(path)...)
+				}
+			}
+		}
+		c.Sites["C10-R8#instruction-walk-loops"] = nLoops
+		if nLoops == 0 {
+			c.ob("C10-R8", fnKey(dc)+"#instruction-walk", dc.Pos(), false, "Decompile has no loop that calls readInstruction: the walk over the code section is not where the rule expects it")
+		}
+	}
+
 	c.rule("C10-R7", "BKT: the parser never rewinds its cursor over tokens it has already parsed through the recursive grammar: no store into Parser.position of a value that is a saved copy of the cursor (as opposed to cursor+k) is reachable after a call to a parse method between the save and the restore. Parse, rewind, parse again doubles the work at every nesting level of the re-parsed construct, so a few hundred bytes of nested input do not terminate in practice")
 	{
 		nStores, nRewinds := 0, 0
